@@ -117,7 +117,7 @@ ENGINES.append({"name": "wit", "path": "overlay/verifsim/wit", "serves_propertie
 
 PROPS["C12"] = {
     "engine": "client", "quick_budget": 45, "thorough_budget": 600,
-    "level_note": "Trusted: the reference model that renders the ground-truth log (tiles, data tiles, checkpoints signed through sunlight's own signer), ct-go's TLS marshalling of SCTs, Go's net/http. Real: sunlight.Client (HTTP mode) with torchwood's fetcher, retries, Retry-After handling, timeouts and concurrency limit on the fake clock, over a real http.Transport on in-memory connections (transparent gzip decoding, short bodies, dropped connections). The tree head handed to the client is authentic; file:// modes and the permanent cache are not exercised.",
+    "level_note": "Trusted: the reference model that renders the ground-truth log (tiles, data tiles, checkpoints signed through sunlight's own signer), ct-go's TLS marshalling of SCTs, Go's net/http. Real: sunlight.Client (HTTP mode) with torchwood's fetcher, retries, Retry-After handling, timeouts and concurrency limit on the fake clock, over a real http.Transport on in-memory connections (transparent gzip decoding, short bodies, dropped connections). The tree head handed to the client is authentic; file:// and gzip+file:// modes run without a scheduler (one damaged file per call); archive+file:// and the permanent cache are not exercised.",
     "level_text": "The real client's Entries, AllEntries, Entry, CheckInclusion and Checkpoint run against an in-process log whose every response is decided by the scheduler: bit flips, truncation, trailing bytes, another tile of the same log (other index, other level, narrower or wider partial), the same tile of a forked log signed by the same key, gzip damage, short bodies, 404/429/503 with Retry-After, stalls past the timeout, dropped connections, reordered concurrent responses; older-but-valid, foreign-key, corrupted and extension-spliced checkpoints; authentic logs that hold a copy of an earlier leaf at a later position (the committed leaf's own index differs from its position), a third of the runs with AllowRFC6962ArchivalLeafs set; SCTs that are valid or wrong in log id, timestamp, index (also: rewritten to the position of a duplicated leaf), signature, extension encoding, or issued for the forked leaf. Oracle: every yielded/returned entry has exactly the Merkle-covered fields of the ground-truth leaf at that index, an SCT is confirmed only if valid, a checkpoint is returned only if a served body signed by the configured key states it; without faults the whole log is yielded.",
     "expect_probes": ["complete.allentries", "complete.entries", "inclusion.confirmed", "checkpoint.ok", "fault.fork", "fault.subst", "fault.gzflip", "fault.429", "fault.stall", "concurrent.requests", "entry.misindexed"],
     "real": ["sunlight.Client (client.go), tile.go codec, checkpoint.go verifier", "torchwood client and tile fetcher (retries, backoff, timeouts, concurrency limit)", "net/http client transport over in-memory connections"],
